@@ -26,6 +26,10 @@ fn cmd_ident(_interp: &mut Interp, _ctx: ContextID, argv: &[Value]) -> MoltResul
     }
 }
 
+pub fn rec_cmd() -> CommandFunc {
+    cmd_rec
+}
+
 pub fn harness_interp(limit: i128) -> (Interp, ContextID) {
     let mut interp = Interp::new();
     let ctx = interp.save_context(Recorder { calls: Vec::new() });
@@ -90,4 +94,22 @@ pub fn run_history(case: &Term) -> Term {
 
 pub fn case(limit: i64, scripts: &[&str], probes: &[&str]) -> Term {
     tl(vec![ti(limit), tstrs(scripts), tstrs(probes)])
+}
+
+/// like run_history, but the first script (procedure definitions) runs under the default limit
+/// and the configured limit applies from the second script on
+pub fn run_history_with_limit_after(case: &Term) -> Term {
+    let limit = case.nth(0).as_int();
+    let scripts = case.nth(1).strs();
+    let (mut interp, ctx) = harness_interp(0);
+    let mut outs = Vec::new();
+    for (i, s) in scripts.iter().enumerate() {
+        if i == 1 {
+            interp.set_recursion_limit(limit as usize);
+        }
+        let r = interp.eval(s);
+        outs.push(obs_result(&r));
+    }
+    let calls: Vec<Term> = interp.context::<Recorder>(ctx).calls.iter().map(|c| tstrs(c)).collect();
+    tl(vec![tl(outs), tl(calls), tl(vec![]), Term::Int(interp.scope_level() as i128)])
 }
